@@ -315,8 +315,9 @@ def forest_of_value(v):
     return root
 
 
-def state_forest(model, attr='state'):
-    return forest_of_value(getattr(model, attr))
+def state_forest(model, attr=None):
+    # CUR['attr']: the model_attribute of the machine under test (case['attr']; default 'state')
+    return forest_of_value(getattr(model, attr or CUR.get('attr', 'state')))
 
 
 class EnumNames(object):
@@ -377,6 +378,9 @@ class EnumNames(object):
 
 def build_hsm(case, world, cls, extra_kwargs=None, model=None):
     CUR['sep'] = case.get('sep', SEP)
+    CUR['attr'] = case.get('attr', 'state')
+    if case.get('attr'):
+        extra_kwargs = dict(extra_kwargs or {}, model_attribute=case['attr'])
     cls = with_sep(cls, CUR['sep'])
     if case.get('queued'):
         extra_kwargs = dict(extra_kwargs or {}, queued=True)
@@ -466,7 +470,7 @@ def build_hsm_enum(case, world, cls, extra_kwargs=None, model=None):
     m = case['machine']
     R = world.recorder
     names = EnumNames(m)
-    world.state_of = lambda mod: names.forest(mod.state)
+    world.state_of = lambda mod: names.forest(getattr(mod, CUR.get('attr', 'state')))
     world.enum_names = names
     cnt = [0]
     plain = case.get('enum') == 2      # the same names ('n0', 'n1', ... reused on every level) as plain strings
